@@ -86,7 +86,7 @@ def ref(x, m, T, k, p, C):
     u = e / e.sum(-1, keepdim=True)
     scale = zs.abs().max(-1).values
     tol = 1e-6 + U * scale
-    nearmax = m & near(zs, zmax)
+    nearmax = m & (near(zs, zmax) | (zmax - zs <= 1e-6))  # maximisers up to what float32 probabilities can resolve
     req, allowed = m, m
     if k > 0:
         kth = zm.sort(-1, descending=True).values[:, min(k, N) - 1].unsqueeze(-1)  # -inf if fewer feasible than k
@@ -99,7 +99,7 @@ def ref(x, m, T, k, p, C):
     v = v / v.sum(-1, keepdim=True)
     nuc, amb = req, amb_k
     if 0 < p < 1:
-        vs, idx = v.sort(-1, descending=True, stable=True)
+        vs, idx = v.sort(dim=-1, descending=True, stable=True)
         before = vs.cumsum(-1) - vs  # mass of strictly better-ranked actions
         keep = (before < p) & (vs > 0)
         nuc = torch.zeros_like(req).scatter(-1, idx, keep)
@@ -116,6 +116,8 @@ def ref(x, m, T, k, p, C):
 
 
 def flag(rep, rows, name, what, x, m, cfg, **extra):
+    if isinstance(rows, bool):
+        rows = torch.full((len(x),), rows)
     if not bool(rows.any()):
         return
     i = int(rows.nonzero()[0])
@@ -216,11 +218,11 @@ def rand_masks(B, N, g):
 
 def build_rows(N, tier, g):
     """Rows (logits, mask) for N actions; see module docstring."""
-    R = 24 if tier == "quick" else 250
+    R = 24 if tier == "quick" else 500
     xs, ms = [], []
     gridN = 3 if tier == "quick" else 4
     if N <= gridN:
-        vals = V if N <= 3 else [-1e4, 0.0, 1e-8, 1.0, 1e4]
+        vals = V
         gx, am = torch.tensor(list(itertools.product(vals, repeat=N)), dtype=torch.float32), all_masks(N)
         xs.append(gx.repeat_interleave(len(am), 0)); ms.append(am.repeat(len(gx), 1))
     rn = lambda *s: torch.randn(*s, generator=g)  # noqa: E731
@@ -265,7 +267,7 @@ def check_filters(rep, x, m):
     """Direct calls of the two filter functions on masked, unscaled logits (incl. -inf entries)."""
     N = x.shape[1]
     z = x.masked_fill(~m, -INF)
-    for k in sorted({1, 2, 3, N}):
+    for k in sorted({k for k in (1, 2, 3, N) if k <= N}):  # the bare filter requires k <= N (process_logits clamps)
         cfg = (1.0, k, 0.0, 0)
         zin = z.clone()
         out = call(rep, lambda: D.modify_logits_for_top_k_filtering(zin, k), "C10.top_k_filter.no-exception", x, m, cfg)
@@ -274,7 +276,7 @@ def check_filters(rep, x, m):
             continue
         R = ref(x, m, 1.0, k, 0.0, 0)
         kept = out > -INF
-        flag(rep, ~torch.equal(zin, z) | (out.data_ptr() == zin.data_ptr()), "C10.top_k_filter.out-of-place", "input modified", x, m, cfg)
+        flag(rep, not torch.equal(zin, z) or out.data_ptr() == zin.data_ptr(), "C10.top_k_filter.out-of-place", "input modified", x, m, cfg)
         flag(rep, ((out != z) & kept).any(-1) | (out.isnan()).any(-1), "C10.top_k_filter.kept-unchanged", "kept logit altered", x, m, cfg, out=out)
         flag(rep, (kept & ~R["allowed"]).any(-1) | (R["req"] & ~kept).any(-1), "C10.top_k_filter.set-matches-reference", "wrong top-k set", x, m, cfg, out=out)
     for p in PS + [-0.5, 1.5]:
@@ -288,10 +290,10 @@ def check_filters(rep, x, m):
         kept = out > -INF
         tiny = (0 < p < 1e-6) & ~kept.any(-1)  # covered by the KNOWN process_logits clause
         flag(rep, tiny, "C10.process_logits.top_p-tiny.all-actions-removed-nan", "top-p filter removed every action", x, m, cfg, out=out)
-        flag(rep, ~torch.equal(zin, z), "C10.top_p_filter.out-of-place", "input modified", x, m, cfg)
+        flag(rep, not torch.equal(zin, z), "C10.top_p_filter.out-of-place", "input modified", x, m, cfg)
         flag(rep, ((out != z) & kept).any(-1) | out.isnan().any(-1), "C10.top_p_filter.kept-unchanged", "kept logit altered", x, m, cfg, out=out)
         flag(rep, ~tiny & ((R["u"] * kept).sum(-1) < min(max(p, 0.0), 1.0) - R["tol"]), "C10.top_p_filter.mass-at-least-p", "kept mass < top_p", x, m, cfg, out=out)
-        flag(rep, ~tiny & ~R["amb"] & (kept != (R["f"] > 0) & ~((R["f"] == 0) & (R["u"] == 0) & m & (not 0 < p < 1))).any(-1) & (0 < p < 1),
+        flag(rep, ~tiny & ~R["amb"] & (kept != (R["f"] > 0)).any(-1) & (0 < p < 1),
              "C10.top_p_filter.set-matches-reference", "nucleus differs from the smallest top set with mass >= p", x, m, cfg, out=out, expected=R["f"])
         if not 0 < p < 1:
             flag(rep, (out != z).any(-1) & ~(out.isnan() | z.isnan()).any(-1), "C10.top_p_filter.off-is-identity", "top_p outside (0,1) must not filter", x, m, cfg, out=out)
